@@ -50,7 +50,7 @@ var chanOps = map[string]int{}
 // statement-level scheduling points (-fine): plain-memory accesses between two synchronisation
 // operations become interleavable in the named files
 var finePrefixes []string
-var nFine int
+var nFine, lastFineLine int
 
 func isFine(rel string) bool {
 	for _, p := range finePrefixes {
@@ -63,9 +63,12 @@ func isFine(rel string) bool {
 
 func yieldStmt(fset *token.FileSet, rel string, at token.Pos) ast.Stmt {
 	nFine++
-	label := fmt.Sprintf("fine %s:%d", rel, fset.Position(at).Line)
+	if line := fset.Position(at).Line; line > 0 {
+		lastFineLine = line
+	}
+	label := fmt.Sprintf("fine %s:%d", rel, lastFineLine) // rewritten statements have no position: previous line
 	return &ast.ExprStmt{X: &ast.CallExpr{
-		Fun:  &ast.SelectorExpr{X: ast.NewIdent("__vrt"), Sel: ast.NewIdent("Yield")},
+		Fun:  &ast.SelectorExpr{X: ast.NewIdent("__vrt"), Sel: ast.NewIdent("Fine")},
 		Args: []ast.Expr{&ast.BasicLit{Kind: token.STRING, Value: strconv.Quote(label)}},
 	}}
 }
@@ -285,9 +288,20 @@ func rewriteFile(path, rel string) ([]byte, bool) {
 				continue
 			}
 			fd.Doc = nil
+			skip := map[ast.Node]bool{} // switch/select bodies hold clauses, not statements
 			ast.Inspect(fd.Body, func(n ast.Node) bool {
-				switch n.(type) {
-				case *ast.BlockStmt, *ast.CaseClause, *ast.CommClause:
+				switch v := n.(type) {
+				case *ast.SwitchStmt:
+					skip[v.Body] = true
+				case *ast.TypeSwitchStmt:
+					skip[v.Body] = true
+				case *ast.SelectStmt:
+					skip[v.Body] = true
+				case *ast.BlockStmt:
+					if !skip[n] {
+						nodes = append(nodes, n)
+					}
+				case *ast.CaseClause, *ast.CommClause:
 					nodes = append(nodes, n)
 				}
 				return true
